@@ -128,6 +128,27 @@ theorem live_secrets_recent {Tok : Type} [DecidableEq Tok] (C : Crypto Tok) (t0 
     simp only [hxy, List.mem_cons, List.not_mem_nil, or_false] at hsb
     rcases hsb with rfl | rfl <;> omega
 
+/-- `token_maintenance` in the client role: after a rotation no token RECEIVED more than TOKEN_EXPIRATION_TIME ago is kept,
+    whatever the table held, and the rotation itself always takes place (the new secret is live afterwards) — in the model
+    the clean-up cannot abort the run; that the code's clean-up cannot either is read by the translator (it iterates over a
+    copy) and exercised by part B (`sfind` ops + maintenance through the task manager). -/
+theorem received_tokens_pruned_and_rotation_completes (n : Node) :
+    (∀ e ∈ n.rotate.recv, n.rotate.now ≤ e.2 + Gen.tokenExpirationTime) ∧
+    n.rotate.secrets.getLast? = some (n.nextSecret, n.now) := by
+  constructor
+  · intro e he
+    simp only [Node.rotate, List.mem_filter] at he ⊢
+    have := he.2
+    simp only [Bool.not_eq_eq_eq_not, Bool.not_true, decide_eq_false_iff_not, Nat.not_lt] at this
+    exact this
+  · simp only [Node.rotate, keepLast, Gen.tokenSecretsMaxlen]
+    rw [List.getLast?_drop]
+    simp
+    omega
+
+example : (({ (Node.init 0).recvToken 7 with now := 601 } : Node).rotate).recv = [] ∧
+    (({ (Node.init 0).recvToken 7 with now := 600 } : Node).rotate).recv = [(7, 0)] := by decide
+
 /-- two rotation periods are within the advertised token lifetime -/
 theorem window_within_token_expiration : 2 * Gen.tokenMaintenanceInterval ≤ Gen.tokenExpirationTime := by decide
 
